@@ -507,6 +507,13 @@ func (srv *Server) serveUDP(l net.PacketConn) error {
 	lUDP, isUDP := l.(*net.UDPConn)
 	readerPC, canPacketConn := reader.(PacketConnReader)
 	if !isUDP && !canPacketConn {
+		// The server does not get going: leave it as one that was never started
+		// and release a Shutdown that is already waiting, or it waits for a serve
+		// loop that does not exist.
+		srv.lock.Lock()
+		srv.started = false
+		srv.lock.Unlock()
+		close(srv.shutdown)
 		return &Error{err: "PacketConnReader was not implemented on Reader returned from DecorateReader but is required for net.PacketConn"}
 	}
 
